@@ -1,4 +1,1754 @@
 package main
 
-// genRyuText: placeholder until the translation of this part of the library is written (an empty generated file).
-func genRyuText() string { return "" }
+// Translation of the text assembly of the float64 'f' printer of internal/ryu into Gallina
+// (coq/Gen/GenRyuText.v, tie T1 for the rest of the path bits -> bytes; the digit generation is translated by
+// funcs.go).
+//
+// The functions listed in rtSpecs (ryu64.go: sizeSlice, dec64.appendF; ryu.go: appendSpecialf, AppendFloat64f,
+// FormatFloat64f) are translated statement by statement into definitions grt_<name>.
+// coq/Proofs/GenRyuTextProofs.v proves every generated definition equal to the hand-written model function of
+// coq/Model/Ryu.v (sizeSlice, appendF, appendSpecialf, AppendFloat64f — the functions the engine "ryu" executes
+// and C16_AppendFloat64f_total / C16_text speak about) for all buffers, all allocators, all arguments and all
+// sufficient fuel, so that an edit of these Go functions changes the generated text and breaks a named theorem
+// T1_ryutext_<name> of coq/Properties/T1RyuText.v.
+//
+// THE SCHEME (anything that does not fit is reported through problem(...); the function then keeps the text of
+// the golden copy, marked FALLBACK, so that the development still builds — the exit status says the tie is
+// broken).
+//
+//	[]byte      a byte slice is the record grt_buf {| grt_data; grt_spare |}: the visible contents and the bytes
+//	            of the spare capacity (cap - len stale bytes), the abstraction of Model/Ryu.v.  alloc : nat ->
+//	            bytes (a variable of the generated section) is what the runtime leaves in the spare capacity when
+//	            append has to reallocate to a given length; nothing may depend on it.  Fixed vocabulary (preamble
+//	            of the generated file):
+//	              len(b), cap(b)           -> grt_len b, grt_cap b
+//	              append(b, x, y)          -> grt_append b [x; y]      (in place when the spare capacity suffices,
+//	              append(b, "lit"...)      -> grt_append b [bytes]      else a new array with spare alloc (new len))
+//	              append(b, make([]byte, n)...) -> do t <- grt_make n; .. grt_append b t   (n < 0 panics)
+//	              b[:n]                    -> grt_reslice b n          (0 <= n <= cap, else Panic; bytes of the
+//	                                                                    spare capacity become visible)
+//	              b[i] = v, b[i]           -> grt_store b i v, grt_index b i   (Panic outside 0 <= i < len)
+//	              make([]byte, n, c)       -> grt_make3 n c
+//	              byteSliceToString(b)     -> grt_data b     (the body of byteSliceToString is compared with the
+//	                                                          text this stands for)
+//	            Two slices never share an array in the translated functions: a slice variable is only ever
+//	            replaced by a slice derived from itself (checked: the first argument of append and the operand
+//	            of b[:n] are variables, and their result is returned or assigned to a variable of that name).
+//	float64     a float64 parameter is its bit pattern (Z in [0, 2^64)); its only uses are math.Float64bits(f)
+//	            -> the value itself, and being handed to a translated function.
+//	integers    Go int -> Z, NOT wrapped: + - * and unary - are exact (a position, a length or a counter of a
+//	            slice; overflow of int is outside the translation as it is outside the model).  uintN / intN ->
+//	            Z inside the range of the type, + - * wrap explicitly (gu8 .. gs64 of GenFuncs.v); / % with a
+//	            non-zero constant divisor are Z.div / Z.modulo (unsigned, and Z.quot / Z.rem on int); shifts by
+//	            a constant below the width are Z.shiftl (wrapped) / Z.shiftr; & | are Z.land / Z.lor.  A
+//	            conversion T(e) is the identity when every value of the type of e is a value of T (int32 -> int,
+//	            byte -> uint32 ..) and the wrap of T otherwise (uint64 -> byte ..).  Constant expressions
+//	            (also typed ones like uint64(1)<<mantBits64 - 1) are folded exactly and must fit their type.
+//	            x > y is written (y <? x), x >= y is (y <=? x).
+//	struct      dec64 -> one variable per field (v_d_m, v_d_e; the pair where a single value is needed); a value
+//	            receiver is the first argument after fuel.
+//	results     a function that can panic (slice operation, loop, call of such a function, call of a partial
+//	            function of GenFuncs.v) answers outcome T; Panic = the Go function panics OR fuel used up.
+//	            Functions of GenFuncs.v (decimalLen64, float64ToDecimalExactInt, float64ToDecimal ..) are
+//	            called by name; their option is lifted by grt_lift (None -> Panic).
+//	fuel        a function that contains a loop, or calls one that does, takes (fuel : nat) first.  Every for
+//	            loop is a separate Fixpoint grt_<f>_loopN over its own counter k (O => Panic), entered with the
+//	            budget fuel; calls of functions with fuel hand fuel on.  "fuel > every trip count" is what
+//	            sufficient means.
+//	statements  x := e; a, b := f(..); x = e; x op= e; x++; x--; b[i] = e; return e; if / else
+//	if          when no branch leaves the statement early the branches compute the new values of the variables
+//	            they assign (let / do (x, y) <- (if c then .. else ..)); otherwise the rest of the block is
+//	            continued inside the branches that fall through.
+//	loops       for init; cond; post { body } without return inside: a Fixpoint from the variables it mentions
+//	            to the new values of the outer variables it assigns; break = exit, continue = post and again.
+//	shadowing   x := e for an x of an enclosing scope is accepted only in a block that ends with return (the
+//	            outer variable is dead from there on), as in the "0.XYZ" branch of appendF.
+//	rejected    return inside a loop, switch, range, goto, labels, defer, closures, maps, pointers, slices of
+//	            other element types, slice expressions other than b[:n], && / || with an operation that can
+//	            panic on the right, calls of unknown functions, everything else.
+
+import (
+	"bytes"
+	"flag"
+	"fmt"
+	"go/ast"
+	"go/printer"
+	"go/token"
+	"math/big"
+	"os"
+	"path/filepath"
+	"strconv"
+	"strings"
+)
+
+const rtPkg = "internal/ryu"
+
+// in dependency order (a callee before its callers)
+var rtSpecs = []string{"sizeSlice", "appendSpecialf", "dec64.appendF", "AppendFloat64f", "FormatFloat64f"}
+
+// the text the fixed vocabulary stands for (bodies printed by go/printer)
+var rtVocabulary = map[string]string{
+	"byteSliceToString": "{\n\n\treturn *(*string)(unsafe.Pointer(&b))\n}",
+}
+
+const rtPreamble = `(* GENERATED by tools/qf2coq (ryutext.go) from internal/ryu/ryu.go and ryu64.go of tobgu/qframe — do not edit.
+   One definition grt_<function> per translated Go function, one Fixpoint grt_<function>_loopN per loop; the
+   scheme is described at the top of tools/qf2coq/ryutext.go.  A []byte is grt_buf (visible contents + bytes of
+   the spare capacity), alloc is the content of the spare capacity after a reallocation; Go int is Z (exact),
+   the fixed-width types are Z wrapped by gu8 .. gs64 of GenFuncs.v; a float64 is its bit pattern; functions that
+   can panic answer outcome (Panic = Go panic or fuel used up); the digit generation (decimalLen64,
+   float64ToDecimalExactInt, float64ToDecimal) is called in its translated form gf_ryu_* of GenFuncs.v. *)
+From QF Require Import Base.Prelude Gen.GenFuncs.
+Local Open Scope Z_scope.
+
+(* a []byte: the visible contents and the bytes of the spare capacity *)
+Record grt_buf := { grt_data : bytes; grt_spare : bytes }.
+Definition grt_len (b : grt_buf) : Z := Z.of_nat (length (grt_data b)).
+Definition grt_cap (b : grt_buf) : Z := Z.of_nat (length (grt_data b) + length (grt_spare b)).
+(* a partial function of GenFuncs.v *)
+Definition grt_lift {A : Type} (o : option A) : outcome A :=
+  match o with Some a => Ok a | None => Panic end.
+(* a value of type byte as an element of bytes *)
+Definition grt_byte (v : Z) : N := Z.to_N v.
+(* make([]byte, n) as the argument of append, make([]byte, n, c) *)
+Definition grt_make (n : Z) : outcome bytes :=
+  if n <? 0 then Panic else Ok (repeat 0%N (Z.to_nat n)).
+Definition grt_make3 (n c : Z) : outcome grt_buf :=
+  if (n <? 0) || (c <? n) then Panic
+  else Ok {| grt_data := repeat 0%N (Z.to_nat n); grt_spare := repeat 0%N (Z.to_nat (c - n)) |}.
+(* b[:n] *)
+Definition grt_reslice (b : grt_buf) (n : Z) : outcome grt_buf :=
+  if (n <? 0) || (grt_cap b <? n) then Panic
+  else Ok {| grt_data := firstn (Z.to_nat n) (grt_data b ++ grt_spare b);
+             grt_spare := skipn (Z.to_nat n) (grt_data b ++ grt_spare b) |}.
+(* b[i] = v and b[i] *)
+Definition grt_store (b : grt_buf) (i v : Z) : outcome grt_buf :=
+  if (i <? 0) || (grt_len b <=? i) then Panic
+  else Ok {| grt_data := set_nth (grt_data b) (Z.to_nat i) (grt_byte v); grt_spare := grt_spare b |}.
+Definition grt_index (b : grt_buf) (i : Z) : outcome Z :=
+  if i <? 0 then Panic else do x <- idx (grt_data b) (Z.to_nat i); Ok (Z.of_N x).
+
+Section GenRyuText.
+Variable alloc : nat -> bytes.
+
+(* append(b, xs...) *)
+Definition grt_append (b : grt_buf) (xs : bytes) : grt_buf :=
+  if (length xs <=? length (grt_spare b))%nat
+  then {| grt_data := grt_data b ++ xs; grt_spare := skipn (length xs) (grt_spare b) |}
+  else {| grt_data := grt_data b ++ xs; grt_spare := alloc (length (grt_data b) + length xs)%nat |}.
+
+`
+
+// ------------------------------------------------------------------ types
+
+type rtKind int
+
+const (
+	rtInt  rtKind = iota // Go int: exact Z
+	rtWord               // fixed-width integer: wrapped Z
+	rtBool
+	rtBuf   // []byte
+	rtBytes // string, or a byte sequence handed to append
+	rtStruct
+	rtFloat // float64 as its bit pattern
+	rtTuple
+	rtUnit
+	rtUntyped
+	rtBad
+)
+
+type rtT struct {
+	k      rtKind
+	signed bool
+	bits   int
+	name   string   // struct name
+	fnames []string // struct fields
+	elems  []*rtT   // struct fields / tuple components
+}
+
+var (
+	rtIntT   = &rtT{k: rtInt, signed: true, bits: 64}
+	rtBoolT  = &rtT{k: rtBool}
+	rtBufT   = &rtT{k: rtBuf}
+	rtBytesT = &rtT{k: rtBytes}
+	rtFloatT = &rtT{k: rtFloat}
+	rtUnitT  = &rtT{k: rtUnit}
+	rtUntT   = &rtT{k: rtUntyped}
+	rtBadT   = &rtT{k: rtBad}
+	rtByteT  = &rtT{k: rtWord, bits: 8}
+	rtU64T   = &rtT{k: rtWord, bits: 64}
+)
+
+func (t *rtT) isNum() bool { return t.k == rtInt || t.k == rtWord }
+
+func (t *rtT) same(u *rtT) bool {
+	if t.k != u.k {
+		return false
+	}
+	switch t.k {
+	case rtWord:
+		return t.signed == u.signed && t.bits == u.bits
+	case rtStruct:
+		return t.name == u.name
+	case rtTuple:
+		if len(t.elems) != len(u.elems) {
+			return false
+		}
+		for i := range t.elems {
+			if !t.elems[i].same(u.elems[i]) {
+				return false
+			}
+		}
+	}
+	return true
+}
+
+func (t *rtT) coq() string {
+	switch t.k {
+	case rtInt, rtWord, rtFloat:
+		return "Z"
+	case rtBool:
+		return "bool"
+	case rtBuf:
+		return "grt_buf"
+	case rtBytes:
+		return "bytes"
+	case rtUnit:
+		return "unit"
+	case rtStruct, rtTuple:
+		var parts []string
+		for _, e := range t.elems {
+			parts = append(parts, e.coq())
+		}
+		return "(" + strings.Join(parts, " * ") + ")"
+	}
+	return "BAD"
+}
+
+func (t *rtT) goName() string {
+	switch t.k {
+	case rtInt:
+		return "int"
+	case rtWord:
+		if t.signed {
+			return fmt.Sprintf("int%d", t.bits)
+		}
+		return fmt.Sprintf("uint%d", t.bits)
+	case rtBool:
+		return "bool"
+	case rtBuf:
+		return "[]byte"
+	case rtBytes:
+		return "string"
+	case rtStruct:
+		return t.name
+	case rtFloat:
+		return "float64"
+	case rtUntyped:
+		return "untyped constant"
+	case rtTuple:
+		return "several values"
+	case rtUnit:
+		return "no value"
+	}
+	return "?"
+}
+
+func (t *rtT) wrap() string {
+	if t.signed {
+		return fmt.Sprintf("gs%d", t.bits)
+	}
+	return fmt.Sprintf("gu%d", t.bits)
+}
+
+func (t *rtT) lo() *big.Int {
+	if !t.signed {
+		return big.NewInt(0)
+	}
+	return new(big.Int).Neg(new(big.Int).Lsh(big.NewInt(1), uint(t.bits-1)))
+}
+
+func (t *rtT) hi() *big.Int { // exclusive
+	if !t.signed {
+		return new(big.Int).Lsh(big.NewInt(1), uint(t.bits))
+	}
+	return new(big.Int).Lsh(big.NewInt(1), uint(t.bits-1))
+}
+
+// every value of t is a value of u
+func (t *rtT) within(u *rtT) bool {
+	return t.lo().Cmp(u.lo()) >= 0 && t.hi().Cmp(u.hi()) <= 0
+}
+
+func rtFromGf(t *gfType) *rtT {
+	switch t.kind {
+	case gfInt:
+		if t.signed && t.bits == 64 {
+			return rtIntT
+		}
+		return &rtT{k: rtWord, signed: t.signed, bits: t.bits}
+	case gfBool:
+		return rtBoolT
+	case gfUnit:
+		return rtUnitT
+	case gfString:
+		return rtBytesT
+	case gfStruct, gfTuple:
+		r := &rtT{k: rtTuple}
+		if t.kind == gfStruct {
+			r.k = rtStruct
+			r.name = t.name
+			r.fnames = t.fnames
+		}
+		for _, e := range t.elems {
+			x := rtFromGf(e)
+			if x == nil {
+				return nil
+			}
+			r.elems = append(r.elems, x)
+		}
+		return r
+	}
+	return nil
+}
+
+func rtResolve(g *gfPkg, e ast.Expr) *rtT {
+	switch t := e.(type) {
+	case *ast.ParenExpr:
+		return rtResolve(g, t.X)
+	case *ast.ArrayType:
+		if t.Len == nil {
+			if el := rtResolve(g, t.Elt); el != nil && el.same(rtByteT) {
+				return rtBufT
+			}
+		}
+		return nil
+	case *ast.Ident:
+		if _, shadow := g.types[t.Name]; !shadow {
+			switch t.Name {
+			case "float64":
+				return rtFloatT
+			case "int":
+				return rtIntT
+			case "int64":
+				return &rtT{k: rtWord, signed: true, bits: 64}
+			}
+		}
+	}
+	gt := g.resolveType(e, 0)
+	if gt == nil {
+		return nil
+	}
+	return rtFromGf(gt)
+}
+
+// ------------------------------------------------------------------ translated functions
+
+type rtVar struct {
+	name string // Go name
+	typ  *rtT
+}
+
+type rtFunc struct {
+	goName string
+	coq    string
+	fd     *ast.FuncDecl
+	params []rtVar
+	result *rtT
+	part   bool // answers outcome
+	fuel   bool // takes fuel
+	text   string
+	ok     bool
+}
+
+var rtFuncs = map[string]*rtFunc{} // by Go name (method: Receiver.Name)
+
+type rtBind struct{ name, term string }
+
+type rtEnv struct {
+	order  []string
+	typ    map[string]*rtT
+	closed bool // the block cannot fall through to the code after it (it ends with return)
+}
+
+func (e *rtEnv) clone() *rtEnv {
+	n := &rtEnv{order: append([]string(nil), e.order...), typ: map[string]*rtT{}, closed: e.closed}
+	for k, v := range e.typ {
+		n.typ[k] = v
+	}
+	return n
+}
+
+func (e *rtEnv) declare(name string, t *rtT) {
+	if _, ok := e.typ[name]; !ok {
+		e.order = append(e.order, name)
+	}
+	e.typ[name] = t
+}
+
+type rtTr struct {
+	g       *gfPkg
+	f       *rtFunc
+	bad     bool
+	tmp     int
+	pending []rtBind
+	aux     []string
+	nloop   int
+	partial bool // the code being emitted has type outcome _
+	inMerge int
+	inLoop  int
+}
+
+func (c *rtTr) fail(n ast.Node, format string, a ...interface{}) {
+	if !c.bad {
+		where := ""
+		if n != nil {
+			where = " (" + rtSrc(c.g.p.fset, n) + ")"
+		}
+		problem("internal/ryu text translation: function %s: %s%s", c.f.goName, fmt.Sprintf(format, a...), where)
+	}
+	c.bad = true
+}
+
+func rtSrc(fset *token.FileSet, n ast.Node) string {
+	var b bytes.Buffer
+	printer.Fprint(&b, fset, n)
+	s := strings.Join(strings.Fields(b.String()), " ")
+	if len(s) > 70 {
+		s = s[:70] + " .."
+	}
+	return s
+}
+
+func (c *rtTr) fresh() string {
+	c.tmp++
+	return fmt.Sprintf("t%d", c.tmp)
+}
+
+func (c *rtTr) take() []rtBind {
+	p := c.pending
+	c.pending = nil
+	return p
+}
+
+func (c *rtTr) wrapBinds(b []rtBind, inner string) string {
+	if len(b) > 0 && !c.partial {
+		c.fail(nil, "internal: operation that can panic in code classified as total")
+	}
+	for i := len(b) - 1; i >= 0; i-- {
+		inner = fmt.Sprintf("do %s <- %s;\n  %s", b[i].name, b[i].term, inner)
+	}
+	return inner
+}
+
+func (c *rtTr) ret(term string) string {
+	if c.partial {
+		if strings.ContainsAny(term, " ") && !strings.HasPrefix(term, "(") {
+			term = "(" + term + ")"
+		}
+		return "Ok " + term
+	}
+	return term
+}
+
+func rtCoqVar(name string) string { return "v_" + name }
+
+func rtFlat(name string, t *rtT) []rtVar {
+	if t.k == rtStruct {
+		var out []rtVar
+		for i, f := range t.fnames {
+			out = append(out, rtVar{rtCoqVar(name) + "_" + f, t.elems[i]})
+		}
+		return out
+	}
+	return []rtVar{{rtCoqVar(name), t}}
+}
+
+func rtValue(name string, t *rtT) string {
+	fl := rtFlat(name, t)
+	if len(fl) == 1 {
+		return fl[0].name
+	}
+	var parts []string
+	for _, v := range fl {
+		parts = append(parts, v.name)
+	}
+	return "(" + strings.Join(parts, ", ") + ")"
+}
+
+func rtPattern(name string, t *rtT) string {
+	v := rtValue(name, t)
+	if strings.HasPrefix(v, "(") {
+		return "'" + v
+	}
+	return v
+}
+
+func rtTupleOf(vs []rtVar) (val, pat string) {
+	if len(vs) == 1 {
+		return vs[0].name, vs[0].name
+	}
+	var parts []string
+	for _, v := range vs {
+		parts = append(parts, v.name)
+	}
+	j := strings.Join(parts, ", ")
+	return "(" + j + ")", "'(" + j + ")"
+}
+
+// ------------------------------------------------------------------ classification
+
+func rtCallee(g *gfPkg, env *rtEnv, call *ast.CallExpr) (own *rtFunc, ext *gfFunc, args []ast.Expr) {
+	switch f := call.Fun.(type) {
+	case *ast.Ident:
+		if r, ok := rtFuncs[f.Name]; ok {
+			return r, nil, call.Args
+		}
+		if x, ok := gfFuncs[rtPkg+":"+f.Name]; ok {
+			return nil, x, call.Args
+		}
+	case *ast.SelectorExpr:
+		if id, ok := f.X.(*ast.Ident); ok && env != nil {
+			if vt, isVar := env.typ[id.Name]; isVar && vt.k == rtStruct {
+				if r, ok := rtFuncs[vt.name+"."+f.Sel.Name]; ok {
+					return r, nil, append([]ast.Expr{f.X}, call.Args...)
+				}
+			}
+		}
+	}
+	return nil, nil, nil
+}
+
+// rtNodePartial: the node contains an operation that can panic (or a loop).
+func rtNodePartial(g *gfPkg, n ast.Node) bool {
+	res := false
+	ast.Inspect(n, func(x ast.Node) bool {
+		switch t := x.(type) {
+		case *ast.ForStmt, *ast.IndexExpr, *ast.SliceExpr:
+			res = true
+		case *ast.CallExpr:
+			if id, ok := t.Fun.(*ast.Ident); ok {
+				if id.Name == "panic" || id.Name == "make" {
+					res = true
+				}
+				if r, ok := rtFuncs[id.Name]; ok && r.part {
+					res = true
+				}
+				if x, ok := gfFuncs[rtPkg+":"+id.Name]; ok && (x.partial || !x.ok) {
+					res = true
+				}
+			}
+			if sel, ok := t.Fun.(*ast.SelectorExpr); ok {
+				for k, r := range rtFuncs {
+					if strings.HasSuffix(k, "."+sel.Sel.Name) && r.part {
+						res = true
+					}
+				}
+			}
+		}
+		return !res
+	})
+	return res
+}
+
+func rtNeedsFuel(n ast.Node) bool {
+	res := false
+	ast.Inspect(n, func(x ast.Node) bool {
+		switch t := x.(type) {
+		case *ast.ForStmt:
+			res = true
+		case *ast.CallExpr:
+			if id, ok := t.Fun.(*ast.Ident); ok {
+				if r, ok := rtFuncs[id.Name]; ok && r.fuel {
+					res = true
+				}
+			}
+			if sel, ok := t.Fun.(*ast.SelectorExpr); ok {
+				for k, r := range rtFuncs {
+					if strings.HasSuffix(k, "."+sel.Sel.Name) && r.fuel {
+						res = true
+					}
+				}
+			}
+		}
+		return !res
+	})
+	return res
+}
+
+// ------------------------------------------------------------------ expressions
+
+func (c *rtTr) constAs(n ast.Node, v *big.Int, t *rtT) string {
+	if !t.isNum() {
+		c.fail(n, "constant %s used at type %s", v.String(), t.goName())
+		return "0"
+	}
+	if v.Cmp(t.lo()) < 0 || v.Cmp(t.hi()) >= 0 {
+		c.fail(n, "constant %s does not fit %s", v.String(), t.goName())
+		return "0"
+	}
+	return gfNum(v)
+}
+
+// typed forces an untyped constant to the wanted type (int when there is none).
+func (c *rtTr) typed(n ast.Node, term string, t *rtT, cv *big.Int, want *rtT) (string, *rtT) {
+	if t.k == rtUntyped {
+		if want == nil || !want.isNum() {
+			want = rtIntT
+		}
+		return c.constAs(n, cv, want), want
+	}
+	return term, t
+}
+
+// expr translates e: the Coq term, its type, and its value when it is a constant (typed or not).
+func (c *rtTr) expr(env *rtEnv, e ast.Expr, want *rtT) (string, *rtT, *big.Int) {
+	g := c.g
+	if !rtMentionsVar(env, e) { // a local variable hides a package constant of the same name
+		if v, ok := gfConst(g, e); ok {
+			return gfNum(v), rtUntT, v
+		}
+	}
+	switch t := e.(type) {
+	case *ast.ParenExpr:
+		return c.expr(env, t.X, want)
+	case *ast.BasicLit:
+		if t.Kind == token.STRING {
+			str, err := strconv.Unquote(t.Value)
+			if err != nil {
+				break
+			}
+			return rtBytesLit([]byte(str)), rtBytesT, nil
+		}
+	case *ast.Ident:
+		switch t.Name {
+		case "true":
+			return "true", rtBoolT, nil
+		case "false":
+			return "false", rtBoolT, nil
+		}
+		if vt, ok := env.typ[t.Name]; ok {
+			return rtValue(t.Name, vt), vt, nil
+		}
+		c.fail(e, "identifier %s not understood", t.Name)
+		return "0", rtBadT, nil
+	case *ast.SelectorExpr:
+		if id, ok := t.X.(*ast.Ident); ok {
+			if vt, ok := env.typ[id.Name]; ok && vt.k == rtStruct {
+				for i, f := range vt.fnames {
+					if f == t.Sel.Name {
+						return rtCoqVar(id.Name) + "_" + f, vt.elems[i], nil
+					}
+				}
+			}
+		}
+	case *ast.UnaryExpr:
+		switch t.Op {
+		case token.NOT:
+			x, tx, _ := c.expr(env, t.X, rtBoolT)
+			if tx.k != rtBool {
+				c.fail(e, "! applied to %s", tx.goName())
+			}
+			return "(negb " + x + ")", rtBoolT, nil
+		case token.SUB, token.ADD:
+			x, tx, cv := c.expr(env, t.X, want)
+			x, tx = c.typed(e, x, tx, cv, want)
+			if !tx.isNum() {
+				c.fail(e, "unary %s applied to %s", t.Op, tx.goName())
+				return "0", rtBadT, nil
+			}
+			if t.Op == token.ADD {
+				return x, tx, cv
+			}
+			if cv != nil {
+				nv := new(big.Int).Neg(cv)
+				return c.constAs(e, nv, tx), tx, nv
+			}
+			if tx.k == rtInt {
+				return fmt.Sprintf("(- %s)", x), tx, nil
+			}
+			return fmt.Sprintf("(%s (- %s))", tx.wrap(), x), tx, nil
+		}
+	case *ast.BinaryExpr:
+		return c.binary(env, t, want)
+	case *ast.CallExpr:
+		return c.call(env, t, want)
+	case *ast.IndexExpr:
+		id, ok := t.X.(*ast.Ident)
+		if !ok || env.typ[id.Name] == nil || env.typ[id.Name].k != rtBuf {
+			break
+		}
+		i, ti, cv := c.expr(env, t.Index, rtIntT)
+		i, ti = c.typed(e, i, ti, cv, rtIntT)
+		if ti.k != rtInt {
+			c.fail(e, "index of type %s (only int is supported)", ti.goName())
+		}
+		name := c.fresh()
+		c.pending = append(c.pending, rtBind{name, fmt.Sprintf("grt_index %s %s", rtCoqVar(id.Name), i)})
+		return name, rtByteT, nil
+	case *ast.SliceExpr:
+		id, ok := t.X.(*ast.Ident)
+		if !ok || env.typ[id.Name] == nil || env.typ[id.Name].k != rtBuf || t.Low != nil || t.High == nil || t.Slice3 {
+			c.fail(e, "slice expression other than b[:n] on a []byte variable")
+			return "0", rtBadT, nil
+		}
+		h, th, cv := c.expr(env, t.High, rtIntT)
+		h, th = c.typed(e, h, th, cv, rtIntT)
+		if th.k != rtInt {
+			c.fail(e, "slice bound of type %s (only int is supported)", th.goName())
+		}
+		name := c.fresh()
+		c.pending = append(c.pending, rtBind{name, fmt.Sprintf("grt_reslice %s %s", rtCoqVar(id.Name), h)})
+		return name, &rtT{k: rtBuf, name: id.Name}, nil
+	}
+	c.fail(e, "expression %T not supported", e)
+	return "0", rtBadT, nil
+}
+
+func rtMentionsVar(env *rtEnv, e ast.Expr) bool {
+	res := false
+	ast.Inspect(e, func(x ast.Node) bool {
+		if id, ok := x.(*ast.Ident); ok {
+			if _, isVar := env.typ[id.Name]; isVar {
+				res = true
+			}
+		}
+		return !res
+	})
+	return res
+}
+
+func rtBytesLit(bs []byte) string {
+	var parts []string
+	for _, b := range bs {
+		parts = append(parts, strconv.Itoa(int(b)))
+	}
+	return "[" + strings.Join(parts, "; ") + "]%N"
+}
+
+func rtFold(op token.Token, a, b *big.Int) (*big.Int, bool) {
+	switch op {
+	case token.ADD:
+		return new(big.Int).Add(a, b), true
+	case token.SUB:
+		return new(big.Int).Sub(a, b), true
+	case token.MUL:
+		return new(big.Int).Mul(a, b), true
+	case token.AND:
+		return new(big.Int).And(a, b), true
+	case token.OR:
+		return new(big.Int).Or(a, b), true
+	case token.SHL:
+		if b.Sign() >= 0 && b.IsInt64() && b.Int64() < 4096 {
+			return new(big.Int).Lsh(a, uint(b.Int64())), true
+		}
+	case token.SHR:
+		if b.Sign() >= 0 && b.IsInt64() && b.Int64() < 4096 {
+			return new(big.Int).Rsh(a, uint(b.Int64())), true
+		}
+	case token.QUO:
+		if b.Sign() != 0 {
+			return new(big.Int).Quo(a, b), true
+		}
+	case token.REM:
+		if b.Sign() != 0 {
+			return new(big.Int).Rem(a, b), true
+		}
+	}
+	return nil, false
+}
+
+func (c *rtTr) binary(env *rtEnv, e *ast.BinaryExpr, want *rtT) (string, *rtT, *big.Int) {
+	op := e.Op
+	switch op {
+	case token.LAND, token.LOR:
+		x, tx, _ := c.expr(env, e.X, rtBoolT)
+		before := len(c.pending)
+		y, ty, _ := c.expr(env, e.Y, rtBoolT)
+		if len(c.pending) != before {
+			c.fail(e, "operation that can panic on the right of %s", op)
+		}
+		if tx.k != rtBool || ty.k != rtBool {
+			c.fail(e, "%s applied to operands that are not boolean", op)
+		}
+		if op == token.LAND {
+			return fmt.Sprintf("(%s && %s)", x, y), rtBoolT, nil
+		}
+		return fmt.Sprintf("(%s || %s)", x, y), rtBoolT, nil
+	case token.SHL, token.SHR:
+		x, tx, cx := c.expr(env, e.X, want)
+		n, tn, cn := c.expr(env, e.Y, nil)
+		if cn == nil || tn.k != rtUntyped && !tn.isNum() || cn.Sign() < 0 {
+			c.fail(e, "shift by a count that is not a constant")
+			return "0", rtBadT, nil
+		}
+		x, tx = c.typed(e, x, tx, cx, want)
+		if !tx.isNum() || cn.Cmp(big.NewInt(int64(tx.bits))) >= 0 {
+			c.fail(e, "shift of %s by %s", tx.goName(), cn.String())
+			return "0", rtBadT, nil
+		}
+		if cx != nil {
+			v, _ := rtFold(op, cx, cn)
+			return c.constAs(e, v, tx), tx, v
+		}
+		if op == token.SHR {
+			return fmt.Sprintf("(Z.shiftr %s %s)", x, n), tx, nil
+		}
+		if tx.k == rtInt {
+			c.fail(e, "left shift of an int that is not a constant")
+			return "0", rtBadT, nil
+		}
+		return fmt.Sprintf("(%s (Z.shiftl %s %s))", tx.wrap(), x, n), tx, nil
+	}
+	isCmp := op == token.EQL || op == token.NEQ || op == token.LSS || op == token.LEQ || op == token.GTR || op == token.GEQ
+	opWant := want
+	if isCmp {
+		opWant = nil
+	}
+	x, tx, cx := c.expr(env, e.X, opWant)
+	var y string
+	var ty *rtT
+	var cy *big.Int
+	if tx.isNum() {
+		y, ty, cy = c.expr(env, e.Y, tx)
+	} else {
+		y, ty, cy = c.expr(env, e.Y, opWant)
+	}
+	if tx.k == rtUntyped && ty.k == rtUntyped {
+		c.fail(e, "constant expression that cannot be folded")
+		return "0", rtBadT, nil
+	}
+	if tx.k == rtUntyped {
+		x, tx = c.typed(e, x, tx, cx, ty)
+	}
+	if ty.k == rtUntyped {
+		y, ty = c.typed(e, y, ty, cy, tx)
+	}
+	if tx.k == rtBool && ty.k == rtBool && (op == token.EQL || op == token.NEQ) {
+		if op == token.EQL {
+			return fmt.Sprintf("(Bool.eqb %s %s)", x, y), rtBoolT, nil
+		}
+		return fmt.Sprintf("(negb (Bool.eqb %s %s))", x, y), rtBoolT, nil
+	}
+	if !tx.isNum() || !ty.isNum() {
+		c.fail(e, "operator %s on %s and %s", op, tx.goName(), ty.goName())
+		return "0", rtBadT, nil
+	}
+	if !tx.same(ty) {
+		c.fail(e, "operator %s on mismatched types %s and %s", op, tx.goName(), ty.goName())
+		return "0", rtBadT, nil
+	}
+	switch op {
+	case token.EQL:
+		return fmt.Sprintf("(%s =? %s)", x, y), rtBoolT, nil
+	case token.NEQ:
+		return fmt.Sprintf("(negb (%s =? %s))", x, y), rtBoolT, nil
+	case token.LSS:
+		return fmt.Sprintf("(%s <? %s)", x, y), rtBoolT, nil
+	case token.LEQ:
+		return fmt.Sprintf("(%s <=? %s)", x, y), rtBoolT, nil
+	case token.GTR:
+		return fmt.Sprintf("(%s <? %s)", y, x), rtBoolT, nil
+	case token.GEQ:
+		return fmt.Sprintf("(%s <=? %s)", y, x), rtBoolT, nil
+	}
+	if cx != nil && cy != nil { // typed constant expression: folded exactly, must fit (as the Go compiler demands)
+		if v, ok := rtFold(op, cx, cy); ok {
+			return c.constAs(e, v, tx), tx, v
+		}
+	}
+	w := func(s string) string {
+		if tx.k == rtInt {
+			return "(" + s + ")"
+		}
+		return "(" + tx.wrap() + " (" + s + "))"
+	}
+	switch op {
+	case token.ADD:
+		return w(x + " + " + y), tx, nil
+	case token.SUB:
+		return w(x + " - " + y), tx, nil
+	case token.MUL:
+		return w(x + " * " + y), tx, nil
+	case token.AND:
+		return fmt.Sprintf("(Z.land %s %s)", x, y), tx, nil
+	case token.OR:
+		return fmt.Sprintf("(Z.lor %s %s)", x, y), tx, nil
+	case token.QUO, token.REM:
+		if cy == nil || cy.Sign() == 0 {
+			c.fail(e, "%s by a divisor that is not a non-zero constant", op)
+			return "0", rtBadT, nil
+		}
+		switch {
+		case op == token.QUO && tx.k == rtInt:
+			return fmt.Sprintf("(Z.quot %s %s)", x, y), tx, nil
+		case op == token.QUO && tx.signed:
+			return fmt.Sprintf("(%s (Z.quot %s %s))", tx.wrap(), x, y), tx, nil
+		case op == token.QUO:
+			return fmt.Sprintf("(%s / %s)", x, y), tx, nil
+		case tx.signed:
+			return fmt.Sprintf("(Z.rem %s %s)", x, y), tx, nil
+		}
+		return fmt.Sprintf("(%s mod %s)", x, y), tx, nil
+	}
+	c.fail(e, "operator %s not supported", op)
+	return "0", rtBadT, nil
+}
+
+// byte elements of append(b, x, y): a list of N
+func (c *rtTr) byteElems(env *rtEnv, args []ast.Expr) string {
+	allConst := true
+	var consts []byte
+	var parts []string
+	for _, a := range args {
+		x, tx, cv := c.expr(env, a, rtByteT)
+		x, tx = c.typed(a, x, tx, cv, rtByteT)
+		if !tx.same(rtByteT) {
+			c.fail(a, "append of a value of type %s to a []byte", tx.goName())
+		}
+		if cv != nil && cv.IsInt64() && cv.Int64() >= 0 && cv.Int64() < 256 {
+			consts = append(consts, byte(cv.Int64()))
+			parts = append(parts, cv.String()+"%N")
+		} else {
+			allConst = false
+			parts = append(parts, "(grt_byte "+x+")")
+		}
+	}
+	if allConst {
+		return rtBytesLit(consts)
+	}
+	return "[" + strings.Join(parts, "; ") + "]"
+}
+
+func (c *rtTr) call(env *rtEnv, call *ast.CallExpr, want *rtT) (string, *rtT, *big.Int) {
+	g := c.g
+	if id, ok := call.Fun.(*ast.Ident); ok {
+		_, isOwn := rtFuncs[id.Name]
+		_, isFunc := g.p.funcs[id.Name]
+		// conversions
+		if !isOwn && !isFunc && len(call.Args) == 1 && id.Name != "len" && id.Name != "cap" {
+			if tt := rtResolve(g, id); tt != nil {
+				if !tt.isNum() {
+					c.fail(call, "conversion to %s not supported", id.Name)
+					return "0", rtBadT, nil
+				}
+				x, tx, cv := c.expr(env, call.Args[0], tt)
+				if cv != nil {
+					return c.constAs(call, cv, tt), tt, cv
+				}
+				if !tx.isNum() {
+					c.fail(call, "conversion of %s to %s not supported", tx.goName(), id.Name)
+					return "0", rtBadT, nil
+				}
+				if tx.within(tt) { // every value of the source type is a value of the target type
+					return x, tt, nil
+				}
+				if tt.k == rtInt {
+					return fmt.Sprintf("(gs64 %s)", x), tt, nil
+				}
+				return fmt.Sprintf("(%s %s)", tt.wrap(), x), tt, nil
+			}
+		}
+		switch id.Name {
+		case "len", "cap":
+			if len(call.Args) != 1 {
+				break
+			}
+			x, tx, _ := c.expr(env, call.Args[0], nil)
+			if tx.k == rtBuf {
+				return fmt.Sprintf("(grt_%s %s)", id.Name, x), rtIntT, nil
+			}
+			if tx.k == rtBytes && id.Name == "len" {
+				return fmt.Sprintf("(Z.of_nat (length %s))", x), rtIntT, nil
+			}
+			c.fail(call, "%s of %s", id.Name, tx.goName())
+			return "0", rtBadT, nil
+		case "make":
+			if len(call.Args) == 3 && rtResolve(g, call.Args[0]) == rtBufT {
+				n, tn, cn := c.expr(env, call.Args[1], rtIntT)
+				n, tn = c.typed(call, n, tn, cn, rtIntT)
+				cp, tc, cc := c.expr(env, call.Args[2], rtIntT)
+				cp, tc = c.typed(call, cp, tc, cc, rtIntT)
+				if tn.k != rtInt || tc.k != rtInt {
+					c.fail(call, "make with a length or capacity that is not an int")
+				}
+				name := c.fresh()
+				c.pending = append(c.pending, rtBind{name, fmt.Sprintf("grt_make3 %s %s", n, cp)})
+				return name, &rtT{k: rtBuf, name: "*"}, nil
+			}
+			c.fail(call, "make other than make([]byte, n, c) or append(b, make([]byte, n)...)")
+			return "0", rtBadT, nil
+		case "append":
+			if len(call.Args) < 2 {
+				break
+			}
+			bid, ok := call.Args[0].(*ast.Ident)
+			if !ok || env.typ[bid.Name] == nil || env.typ[bid.Name].k != rtBuf {
+				c.fail(call, "append to something that is not a []byte variable")
+				return "0", rtBadT, nil
+			}
+			resT := &rtT{k: rtBuf, name: bid.Name}
+			if call.Ellipsis.IsValid() {
+				if len(call.Args) != 2 {
+					break
+				}
+				// append(b, make([]byte, n)...)
+				if mk, ok := call.Args[1].(*ast.CallExpr); ok {
+					if mid, ok := mk.Fun.(*ast.Ident); ok && mid.Name == "make" && len(mk.Args) == 2 && rtResolve(g, mk.Args[0]) == rtBufT {
+						n, tn, cn := c.expr(env, mk.Args[1], rtIntT)
+						n, tn = c.typed(mk, n, tn, cn, rtIntT)
+						if tn.k != rtInt {
+							c.fail(mk, "make with a length that is not an int")
+						}
+						name := c.fresh()
+						c.pending = append(c.pending, rtBind{name, fmt.Sprintf("grt_make %s", n)})
+						return fmt.Sprintf("(grt_append %s %s)", rtCoqVar(bid.Name), name), resT, nil
+					}
+				}
+				x, tx, _ := c.expr(env, call.Args[1], nil)
+				if tx.k != rtBytes {
+					c.fail(call, "append(b, x...) with x of type %s", tx.goName())
+					return "0", rtBadT, nil
+				}
+				return fmt.Sprintf("(grt_append %s %s)", rtCoqVar(bid.Name), x), resT, nil
+			}
+			return fmt.Sprintf("(grt_append %s %s)", rtCoqVar(bid.Name), c.byteElems(env, call.Args[1:])), resT, nil
+		case "byteSliceToString":
+			if len(call.Args) == 1 {
+				x, tx, _ := c.expr(env, call.Args[0], nil)
+				if tx.k == rtBuf {
+					return fmt.Sprintf("(grt_data %s)", x), rtBytesT, nil
+				}
+			}
+			c.fail(call, "byteSliceToString applied to something that is not a []byte")
+			return "0", rtBadT, nil
+		}
+	}
+	// math.Float64bits(f)
+	if sel, ok := call.Fun.(*ast.SelectorExpr); ok {
+		if id, ok := sel.X.(*ast.Ident); ok && g.imports[id.Name] == "math" {
+			if sel.Sel.Name == "Float64bits" && len(call.Args) == 1 {
+				x, tx, _ := c.expr(env, call.Args[0], nil)
+				if tx.k == rtFloat {
+					return x, rtU64T, nil
+				}
+			}
+			c.fail(call, "math.%s not supported", sel.Sel.Name)
+			return "0", rtBadT, nil
+		}
+	}
+	own, ext, args := rtCallee(g, env, call)
+	if own == nil && ext == nil {
+		c.fail(call, "call not understood (not a function of this translation nor of GenFuncs.v)")
+		return "0", rtBadT, nil
+	}
+	var ptypes []*rtT
+	var name string
+	var result *rtT
+	var part bool
+	if own != nil {
+		// a callee whose body could not be translated keeps its golden text (same name and type): its
+		// callers are still translated, so that only the tie of the function that was edited breaks
+		for _, p := range own.params {
+			ptypes = append(ptypes, p.typ)
+		}
+		name, result, part = own.coq, own.result, own.part
+		if own.fuel {
+			if c.inLoop > 0 {
+				c.fail(call, "call of a function with loops inside a loop")
+			}
+			name += " fuel"
+		}
+	} else {
+		ext = gfGet(ext.spec.pkg + ":" + ext.spec.fn)
+		if ext == nil || !ext.ok || ext.recvOut != nil || ext.result == nil {
+			c.fail(call, "call of a function of GenFuncs.v that has no translation")
+			return "0", rtBadT, nil
+		}
+		for _, p := range ext.params {
+			if p.typ.kind == gfMsg {
+				c.fail(call, "call of a function of GenFuncs.v with a message argument")
+				return "0", rtBadT, nil
+			}
+			pt := rtFromGf(p.typ)
+			if pt == nil {
+				c.fail(call, "call of a function of GenFuncs.v with an argument of unsupported type")
+				return "0", rtBadT, nil
+			}
+			ptypes = append(ptypes, pt)
+		}
+		result = rtFromGf(ext.result)
+		if result == nil {
+			c.fail(call, "call of a function of GenFuncs.v with a result of unsupported type")
+			return "0", rtBadT, nil
+		}
+		name, part = ext.name, ext.partial
+	}
+	if len(args) != len(ptypes) {
+		c.fail(call, "call with %d arguments, %d expected", len(args), len(ptypes))
+		return "0", rtBadT, nil
+	}
+	term := name
+	for i, a := range args {
+		x, tx, cv := c.expr(env, a, ptypes[i])
+		x, tx = c.typed(a, x, tx, cv, ptypes[i])
+		if !tx.same(ptypes[i]) {
+			c.fail(a, "argument %d has type %s, not %s", i, tx.goName(), ptypes[i].goName())
+		}
+		term += " " + x
+	}
+	if part {
+		if own == nil {
+			term = "grt_lift (" + term + ")"
+		}
+		tn := c.fresh()
+		c.pending = append(c.pending, rtBind{tn, term})
+		return tn, result, nil
+	}
+	return "(" + term + ")", result, nil
+}
+
+// ------------------------------------------------------------------ statements
+
+type rtCont func(env *rtEnv) string
+
+type rtLoopCtx struct{ brk, cont rtCont }
+
+// variables of env assigned somewhere in the statements (flattened, in env order)
+func (c *rtTr) assigned(env *rtEnv, stmts []ast.Stmt) []rtVar {
+	hit := map[string]bool{}
+	mark := func(e ast.Expr) {
+		switch t := e.(type) {
+		case *ast.Ident:
+			if vt, ok := env.typ[t.Name]; ok {
+				for _, v := range rtFlat(t.Name, vt) {
+					hit[v.name] = true
+				}
+			}
+		case *ast.SelectorExpr:
+			if id, ok := t.X.(*ast.Ident); ok {
+				if _, ok := env.typ[id.Name]; ok {
+					hit[rtCoqVar(id.Name)+"_"+t.Sel.Name] = true
+				}
+			}
+		case *ast.IndexExpr:
+			if id, ok := t.X.(*ast.Ident); ok {
+				if _, ok := env.typ[id.Name]; ok {
+					hit[rtCoqVar(id.Name)] = true
+				}
+			}
+		}
+	}
+	for _, s := range stmts {
+		ast.Inspect(s, func(x ast.Node) bool {
+			switch t := x.(type) {
+			case *ast.AssignStmt:
+				if t.Tok != token.DEFINE {
+					for _, l := range t.Lhs {
+						mark(l)
+					}
+				}
+			case *ast.IncDecStmt:
+				mark(t.X)
+			}
+			return true
+		})
+	}
+	var out []rtVar
+	for _, n := range env.order {
+		for _, v := range rtFlat(n, env.typ[n]) {
+			if hit[v.name] {
+				out = append(out, v)
+			}
+		}
+	}
+	return out
+}
+
+func (c *rtTr) declareNew(n ast.Node, env *rtEnv, name string, t *rtT) bool {
+	if name == "_" {
+		return true
+	}
+	if _, dup := env.typ[name]; dup && !(env.closed && c.inMerge == 0 && c.inLoop == 0) {
+		c.fail(n, "variable %s declared twice (shadowing is only supported in a block that ends with return)", name)
+		return false
+	}
+	switch t.k {
+	case rtInt, rtWord, rtBool, rtStruct, rtBuf, rtBytes:
+	default:
+		c.fail(n, "variable %s of unsupported type %s", name, t.goName())
+		return false
+	}
+	if t.k == rtBuf {
+		t = rtBufT
+	}
+	env.declare(name, t)
+	return true
+}
+
+// bufOrigin checks the no-aliasing discipline: a []byte value derived from variable x (append(x, ..), x[:n]) may
+// only be stored in a variable named x (or returned).
+func (c *rtTr) bufOrigin(n ast.Node, target string, tv *rtT) {
+	if tv.k == rtBuf && tv.name != "" && tv.name != "*" && tv.name != target {
+		c.fail(n, "a slice derived from %s is stored in %s (two slices would share an array)", tv.name, target)
+	}
+}
+
+var rtAssignOps = map[token.Token]token.Token{
+	token.ADD_ASSIGN: token.ADD, token.SUB_ASSIGN: token.SUB, token.MUL_ASSIGN: token.MUL, token.QUO_ASSIGN: token.QUO,
+	token.REM_ASSIGN: token.REM, token.AND_ASSIGN: token.AND, token.OR_ASSIGN: token.OR,
+	token.SHL_ASSIGN: token.SHL, token.SHR_ASSIGN: token.SHR,
+}
+
+func (c *rtTr) lhsType(env *rtEnv, lhs ast.Expr) *rtT {
+	switch t := lhs.(type) {
+	case *ast.Ident:
+		if vt, ok := env.typ[t.Name]; ok {
+			return vt
+		}
+	case *ast.SelectorExpr:
+		if id, ok := t.X.(*ast.Ident); ok {
+			if vt, ok := env.typ[id.Name]; ok && vt.k == rtStruct {
+				for i, f := range vt.fnames {
+					if f == t.Sel.Name {
+						return vt.elems[i]
+					}
+				}
+			}
+		}
+	case *ast.IndexExpr:
+		if id, ok := t.X.(*ast.Ident); ok {
+			if vt, ok := env.typ[id.Name]; ok && vt.k == rtBuf {
+				return rtByteT
+			}
+		}
+	}
+	return nil
+}
+
+// store handles lhs = rhs, or lhs = lhs op rhs when op != ILLEGAL
+func (c *rtTr) store(env *rtEnv, s ast.Stmt, lhs ast.Expr, op token.Token, rhs ast.Expr, rest func() string) string {
+	lt := c.lhsType(env, lhs)
+	if lt == nil {
+		c.fail(s, "assignment target not supported")
+		return "BAD"
+	}
+	var val string
+	var tv *rtT
+	var cv *big.Int
+	if op == token.ILLEGAL {
+		val, tv, cv = c.expr(env, rhs, lt)
+	} else {
+		val, tv, cv = c.binary(env, &ast.BinaryExpr{X: lhs, Op: op, Y: rhs}, lt)
+	}
+	val, tv = c.typed(s, val, tv, cv, lt)
+	if !tv.same(lt) {
+		c.fail(s, "assignment of %s to a target of type %s", tv.goName(), lt.goName())
+	}
+	switch t := lhs.(type) {
+	case *ast.IndexExpr:
+		id := t.X.(*ast.Ident)
+		i, ti, ci := c.expr(env, t.Index, rtIntT)
+		i, ti = c.typed(s, i, ti, ci, rtIntT)
+		if ti.k != rtInt {
+			c.fail(s, "index of type %s (only int is supported)", ti.goName())
+		}
+		binds := c.take()
+		if !c.partial {
+			c.fail(s, "internal: store in code classified as total")
+		}
+		return c.wrapBinds(binds, fmt.Sprintf("do %s <- grt_store %s %s %s;\n  %s", rtCoqVar(id.Name), rtCoqVar(id.Name), i, val, rest()))
+	case *ast.Ident:
+		c.bufOrigin(s, t.Name, tv)
+		binds := c.take()
+		return c.wrapBinds(binds, fmt.Sprintf("let %s := %s in\n  %s", rtPattern(t.Name, lt), val, rest()))
+	case *ast.SelectorExpr:
+		id := t.X.(*ast.Ident)
+		binds := c.take()
+		return c.wrapBinds(binds, fmt.Sprintf("let %s_%s := %s in\n  %s", rtCoqVar(id.Name), t.Sel.Name, val, rest()))
+	}
+	c.fail(s, "assignment target not supported")
+	return "BAD"
+}
+
+func rtEndsWithReturn(list []ast.Stmt) bool {
+	if len(list) == 0 {
+		return false
+	}
+	_, ok := list[len(list)-1].(*ast.ReturnStmt)
+	return ok
+}
+
+func (c *rtTr) block(env *rtEnv, stmts []ast.Stmt, lp *rtLoopCtx, k rtCont) string {
+	if c.bad {
+		return "BAD"
+	}
+	if len(stmts) == 0 {
+		return k(env)
+	}
+	s := stmts[0]
+	rest := func() string { return c.block(env, stmts[1:], lp, k) }
+	switch t := s.(type) {
+	case *ast.EmptyStmt:
+		return rest()
+	case *ast.ReturnStmt:
+		if c.inMerge > 0 || c.inLoop > 0 {
+			c.fail(s, "return inside a loop or a merged branch")
+			return "BAD"
+		}
+		if len(stmts) > 1 {
+			c.fail(s, "statements after return")
+			return "BAD"
+		}
+		if c.f.result.k == rtUnit {
+			if len(t.Results) != 0 {
+				c.fail(s, "return with a value")
+			}
+			return c.ret("tt")
+		}
+		if len(t.Results) != 1 {
+			c.fail(s, "return with %d values", len(t.Results))
+			return "BAD"
+		}
+		x, tx, cv := c.expr(env, t.Results[0], c.f.result)
+		x, tx = c.typed(s, x, tx, cv, c.f.result)
+		if !tx.same(c.f.result) {
+			c.fail(s, "return of %s, declared %s", tx.goName(), c.f.result.goName())
+		}
+		binds := c.take()
+		return c.wrapBinds(binds, c.ret(x))
+	case *ast.IncDecStmt:
+		op := token.ADD
+		if t.Tok == token.DEC {
+			op = token.SUB
+		}
+		return c.store(env, s, t.X, op, &ast.BasicLit{Kind: token.INT, Value: "1"}, rest)
+	case *ast.AssignStmt:
+		if t.Tok == token.DEFINE {
+			if len(t.Rhs) == 1 && len(t.Lhs) > 1 { // a, b := f(..)
+				x, tx, _ := c.expr(env, t.Rhs[0], nil)
+				if tx.k != rtTuple || len(tx.elems) != len(t.Lhs) {
+					c.fail(s, "definition of several variables from one value not understood")
+					return "BAD"
+				}
+				binds := c.take()
+				var pat []string
+				for i, l := range t.Lhs {
+					id, ok := l.(*ast.Ident)
+					if !ok {
+						c.fail(s, "definition target not supported")
+						return "BAD"
+					}
+					if id.Name == "_" {
+						pat = append(pat, "_")
+						continue
+					}
+					if !c.declareNew(s, env, id.Name, tx.elems[i]) {
+						return "BAD"
+					}
+					pat = append(pat, strings.TrimPrefix(rtPattern(id.Name, tx.elems[i]), "'"))
+				}
+				return c.wrapBinds(binds, fmt.Sprintf("let '(%s) := %s in\n  %s", strings.Join(pat, ", "), x, rest()))
+			}
+			if len(t.Lhs) != 1 || len(t.Rhs) != 1 {
+				c.fail(s, "definition with %d targets and %d values", len(t.Lhs), len(t.Rhs))
+				return "BAD"
+			}
+			id, ok := t.Lhs[0].(*ast.Ident)
+			if !ok {
+				c.fail(s, "definition target not supported")
+				return "BAD"
+			}
+			x, tx, cv := c.expr(env, t.Rhs[0], nil)
+			x, tx = c.typed(s, x, tx, cv, nil)
+			binds := c.take()
+			c.bufOrigin(s, id.Name, tx)
+			if !c.declareNew(s, env, id.Name, tx) {
+				return "BAD"
+			}
+			if id.Name == "_" {
+				return c.wrapBinds(binds, rest())
+			}
+			return c.wrapBinds(binds, fmt.Sprintf("let %s := %s in\n  %s", rtPattern(id.Name, env.typ[id.Name]), x, rest()))
+		}
+		if len(t.Lhs) != 1 || len(t.Rhs) != 1 {
+			c.fail(s, "parallel assignment not supported")
+			return "BAD"
+		}
+		if t.Tok == token.ASSIGN {
+			return c.store(env, s, t.Lhs[0], token.ILLEGAL, t.Rhs[0], rest)
+		}
+		op, ok := rtAssignOps[t.Tok]
+		if !ok {
+			c.fail(s, "assignment operator %s not supported", t.Tok)
+			return "BAD"
+		}
+		return c.store(env, s, t.Lhs[0], op, t.Rhs[0], rest)
+	case *ast.IfStmt:
+		if t.Init != nil {
+			c.fail(s, "if with an init statement not supported")
+			return "BAD"
+		}
+		cond, tc, _ := c.expr(env, t.Cond, rtBoolT)
+		if tc.k != rtBool {
+			c.fail(s, "condition is not boolean")
+			return "BAD"
+		}
+		binds := c.take()
+		var elseStmts []ast.Stmt
+		switch e := t.Else.(type) {
+		case nil:
+		case *ast.BlockStmt:
+			elseStmts = e.List
+		case *ast.IfStmt:
+			elseStmts = []ast.Stmt{e}
+		default:
+			c.fail(s, "else branch not supported")
+			return "BAD"
+		}
+		jump := gfEscapes(t.Body) || (t.Else != nil && gfEscapes(t.Else))
+		if !jump {
+			part := rtNodePartial(c.g, t.Body) || (t.Else != nil && rtNodePartial(c.g, t.Else))
+			vars := c.assigned(env, append(append([]ast.Stmt{}, t.Body.List...), elseStmts...))
+			if len(vars) == 0 && !part {
+				return c.wrapBinds(binds, rest())
+			}
+			val, pat := "tt", "_"
+			if len(vars) > 0 {
+				val, pat = rtTupleOf(vars)
+			}
+			wasPartial := c.partial
+			if part && !wasPartial {
+				c.fail(s, "internal: branch that can panic in code classified as total")
+			}
+			c.partial = part
+			c.inMerge++
+			end := func(*rtEnv) string { return c.ret(val) }
+			a := c.block(env.clone(), t.Body.List, nil, end)
+			b := c.block(env.clone(), elseStmts, nil, end)
+			c.inMerge--
+			c.partial = wasPartial
+			if part {
+				return c.wrapBinds(binds, fmt.Sprintf("do %s <- (if %s\n  then (%s)\n  else (%s));\n  %s", strings.TrimPrefix(pat, "'"), cond, a, b, rest()))
+			}
+			return c.wrapBinds(binds, fmt.Sprintf("let %s := (if %s then (%s) else (%s)) in\n  %s", pat, cond, a, b, rest()))
+		}
+		base := env.clone() // both branches may fall through: the rest is translated afresh for each
+		after := func(*rtEnv) string { return c.block(base.clone(), stmts[1:], lp, k) }
+		ea := env.clone()
+		ea.closed = rtEndsWithReturn(t.Body.List)
+		eb := env.clone()
+		eb.closed = rtEndsWithReturn(elseStmts)
+		a := c.block(ea, t.Body.List, lp, after)
+		b := c.block(eb, elseStmts, lp, after)
+		return c.wrapBinds(binds, fmt.Sprintf("if %s\n  then (%s)\n  else (%s)", cond, a, b))
+	case *ast.BranchStmt:
+		if t.Label != nil || lp == nil {
+			c.fail(s, "%s not supported here", t.Tok)
+			return "BAD"
+		}
+		switch t.Tok {
+		case token.BREAK:
+			return lp.brk(env)
+		case token.CONTINUE:
+			return lp.cont(env)
+		}
+	case *ast.ForStmt:
+		if gfHasReturn(t) {
+			c.fail(s, "loop with a return (or panic) inside")
+			return "BAD"
+		}
+		return c.loop(env, t, rest)
+	}
+	c.fail(s, "statement %T not supported", s)
+	return "BAD"
+}
+
+// loop: a Fixpoint over its own counter from the variables the loop mentions to the new values of the outer
+// variables it assigns.
+func (c *rtTr) loop(env *rtEnv, t *ast.ForStmt, rest func() string) string {
+	if !c.partial || !c.f.fuel {
+		c.fail(t, "internal: loop in a function classified as free of loops")
+		return "BAD"
+	}
+	if c.inLoop > 0 {
+		c.fail(t, "nested loop")
+		return "BAD"
+	}
+	lenv := env.clone()
+	var initStmts []ast.Stmt
+	if t.Init != nil {
+		initStmts = []ast.Stmt{t.Init}
+	}
+	return c.block(lenv, initStmts, nil, func(*rtEnv) string {
+		stmts := append([]ast.Stmt{}, t.Body.List...)
+		if t.Post != nil {
+			stmts = append(stmts, t.Post)
+		}
+		outVars := c.assigned(env, stmts)
+		val, pat := "tt", "_"
+		var outTypes []string
+		if len(outVars) > 0 {
+			val, pat = rtTupleOf(outVars)
+			for _, v := range outVars {
+				outTypes = append(outTypes, v.typ.coq())
+			}
+		} else {
+			outTypes = []string{"unit"}
+		}
+		used := map[string]bool{}
+		note := func(n ast.Node) {
+			ast.Inspect(n, func(x ast.Node) bool {
+				switch t := x.(type) {
+				case *ast.Ident:
+					used[t.Name] = true
+				case *ast.SelectorExpr:
+					if id, ok := t.X.(*ast.Ident); ok {
+						used[id.Name] = true
+						return false
+					}
+				}
+				return true
+			})
+		}
+		if t.Cond != nil {
+			note(t.Cond)
+		}
+		note(t.Body)
+		if t.Post != nil {
+			note(t.Post)
+		}
+		var params, args []string
+		for _, n := range lenv.order {
+			if !used[n] {
+				continue
+			}
+			for _, v := range rtFlat(n, lenv.typ[n]) {
+				params = append(params, fmt.Sprintf("(%s : %s)", v.name, v.typ.coq()))
+				args = append(args, v.name)
+			}
+		}
+		idx := len(c.aux)
+		c.aux = append(c.aux, "") // the number of a loop is its position in the source
+		c.nloop++
+		name := fmt.Sprintf("%s_loop%d", c.f.coq, c.nloop)
+		c.inLoop++
+		exit := func(*rtEnv) string { return "Ok " + val }
+		recur := func(*rtEnv) string {
+			post := []ast.Stmt{}
+			if t.Post != nil {
+				post = append(post, t.Post)
+			}
+			return c.block(lenv.clone(), post, nil, func(*rtEnv) string {
+				return fmt.Sprintf("%s k' %s", name, strings.Join(args, " "))
+			})
+		}
+		body := c.block(lenv.clone(), t.Body.List, &rtLoopCtx{brk: exit, cont: recur}, recur)
+		if t.Cond != nil {
+			cond, tc, _ := c.expr(lenv, t.Cond, rtBoolT)
+			if tc.k != rtBool {
+				c.fail(t, "loop condition is not boolean")
+			}
+			binds := c.take()
+			body = c.wrapBinds(binds, fmt.Sprintf("if %s\n  then (%s)\n  else (%s)", cond, body, exit(lenv)))
+		}
+		c.inLoop--
+		c.aux[idx] = fmt.Sprintf("Fixpoint %s (k : nat) %s {struct k} : outcome (%s) :=\n  match k with\n  | O => Panic\n  | S k' =>\n  %s\n  end.\n",
+			name, strings.Join(params, " "), strings.Join(outTypes, " * "), body)
+		return fmt.Sprintf("do %s <- %s fuel %s;\n  %s", strings.TrimPrefix(pat, "'"), name, strings.Join(args, " "), rest())
+	})
+}
+
+// ------------------------------------------------------------------ one function
+
+func rtSource(p *pkgInfo, fd *ast.FuncDecl) string {
+	cp := *fd
+	cp.Doc = nil
+	var b bytes.Buffer
+	if err := printer.Fprint(&b, p.fset, &cp); err != nil {
+		return ""
+	}
+	s := b.String()
+	s = strings.ReplaceAll(s, "(*", "( *")
+	s = strings.ReplaceAll(s, "*)", "* )")
+	if strings.Count(s, "\"")%2 == 1 {
+		s = strings.ReplaceAll(s, "\"", "'")
+	}
+	for _, w := range []string{"Admitted", "admit", "Axiom", "Parameter", "Conjecture", "Variable", "Hypothesis", "Guard", "native"} {
+		if strings.Contains(s, w) {
+			return ""
+		}
+	}
+	return s
+}
+
+func rtSignature(g *gfPkg, f *rtFunc) bool {
+	bad := func(format string, a ...interface{}) bool {
+		problem("internal/ryu text translation: function %s: %s", f.goName, fmt.Sprintf(format, a...))
+		return false
+	}
+	fd := f.fd
+	if fd.Body == nil || fd.Type.TypeParams != nil {
+		return bad("no body, or generic")
+	}
+	seen := map[string]bool{}
+	add := func(name string, te ast.Expr) bool {
+		pt := rtResolve(g, te)
+		if pt == nil {
+			return bad("parameter %s: type not supported", name)
+		}
+		switch pt.k {
+		case rtInt, rtWord, rtBool, rtBuf, rtStruct, rtFloat:
+		default:
+			return bad("parameter %s: type %s not supported", name, pt.goName())
+		}
+		if name == "_" || name == "" || seen[name] {
+			return bad("parameter without a name of its own")
+		}
+		seen[name] = true
+		f.params = append(f.params, rtVar{name, pt})
+		return true
+	}
+	if fd.Recv != nil {
+		if len(fd.Recv.List) != 1 || len(fd.Recv.List[0].Names) != 1 {
+			return bad("receiver not understood")
+		}
+		if _, ptr := fd.Recv.List[0].Type.(*ast.StarExpr); ptr {
+			return bad("pointer receiver")
+		}
+		if !add(fd.Recv.List[0].Names[0].Name, fd.Recv.List[0].Type) {
+			return false
+		}
+	}
+	for _, fl := range fd.Type.Params.List {
+		if _, variadic := fl.Type.(*ast.Ellipsis); variadic || len(fl.Names) == 0 {
+			return bad("variadic or unnamed parameter")
+		}
+		for _, n := range fl.Names {
+			if !add(n.Name, fl.Type) {
+				return false
+			}
+		}
+	}
+	f.result = rtUnitT
+	if fd.Type.Results != nil && len(fd.Type.Results.List) > 0 {
+		if len(fd.Type.Results.List) != 1 || len(fd.Type.Results.List[0].Names) != 0 {
+			return bad("several or named results")
+		}
+		rt := rtResolve(g, fd.Type.Results.List[0].Type)
+		if rt == nil {
+			return bad("result type not supported")
+		}
+		switch rt.k {
+		case rtInt, rtWord, rtBool, rtBuf, rtBytes:
+		default:
+			return bad("result type %s not supported", rt.goName())
+		}
+		f.result = rt
+	}
+	f.part = rtNodePartial(g, fd.Body)
+	f.fuel = rtNeedsFuel(fd.Body)
+	return true
+}
+
+func rtTranslate(g *gfPkg, f *rtFunc) {
+	c := &rtTr{g: g, f: f, partial: f.part}
+	env := &rtEnv{typ: map[string]*rtT{}}
+	for _, p := range f.params {
+		env.declare(p.name, p.typ)
+	}
+	env.closed = false
+	body := c.block(env, f.fd.Body.List, nil, func(*rtEnv) string {
+		if f.result.k == rtUnit {
+			return c.ret("tt")
+		}
+		c.fail(f.fd, "control reaches the end of a function with a result")
+		return "BAD"
+	})
+	if c.bad {
+		return
+	}
+	var b strings.Builder
+	if src := rtSource(g.p, f.fd); src != "" {
+		fmt.Fprintf(&b, "(* %s\n%s *)\n", rtPkg, src)
+	}
+	for _, a := range c.aux {
+		b.WriteString(a)
+	}
+	var ps []string
+	if f.fuel {
+		ps = append(ps, "(fuel : nat)")
+	}
+	destruct := ""
+	for _, p := range f.params {
+		ps = append(ps, fmt.Sprintf("(%s : %s)", rtCoqVar(p.name), p.typ.coq()))
+		if p.typ.k == rtStruct {
+			destruct += fmt.Sprintf("let %s := %s in\n  ", rtPattern(p.name, p.typ), rtCoqVar(p.name))
+		}
+	}
+	rt := f.result.coq()
+	if f.part {
+		rt = "outcome " + rt
+	}
+	fmt.Fprintf(&b, "Definition %s %s : %s :=\n  %s%s.\n", f.coq, strings.Join(ps, " "), rt, destruct, body)
+	f.text = b.String()
+	f.ok = true
+}
+
+// ------------------------------------------------------------------ the file
+
+func genRyuText() string {
+	g := gfLoad(rtPkg)
+	p := g.p
+	for name, want := range rtVocabulary {
+		fd, ok := p.funcs[name]
+		if !ok || fd.Body == nil {
+			problem("internal/ryu text translation: function %s not found in %s", name, rtPkg)
+			continue
+		}
+		var b bytes.Buffer
+		printer.Fprint(&b, p.fset, fd.Body)
+		if b.String() != want {
+			problem("internal/ryu text translation: the body of %s is not the one the vocabulary of the translation stands for", name)
+		}
+	}
+	var order []*rtFunc
+	for _, n := range rtSpecs {
+		short := n[strings.LastIndex(n, ".")+1:]
+		f := &rtFunc{goName: n, coq: "grt_" + short}
+		order = append(order, f)
+		fd, ok := p.funcs[n]
+		if !ok {
+			problem("internal/ryu text translation: function %s not found in %s", n, rtPkg)
+			continue
+		}
+		f.fd = fd
+		if !rtSignature(g, f) {
+			f.fd = nil
+			continue
+		}
+		rtFuncs[n] = f // visible to its callers from here on (a callee stands before its callers in rtSpecs)
+		rtTranslate(g, f)
+	}
+	golden := ""
+	if fl := flag.Lookup("golden"); fl != nil && fl.Value.String() != "" {
+		if gb, err := os.ReadFile(filepath.Join(fl.Value.String(), "GenRyuText.v")); err == nil {
+			golden = string(gb)
+		}
+	}
+	var b strings.Builder
+	b.WriteString(rtPreamble)
+	for _, f := range order {
+		text := f.text
+		if !f.ok {
+			old, found := gfGoldenBlock(golden, f.coq)
+			if !found {
+				continue
+			}
+			text = "(* FALLBACK " + f.coq + ": not derivable from the current source; text of the last validated tree *)\n" + old
+		}
+		fmt.Fprintf(&b, "(* BEGIN %s *)\n%s(* END %s *)\n\n", f.coq, text, f.coq)
+	}
+	b.WriteString("End GenRyuText.\n")
+	return b.String()
+}
